@@ -201,8 +201,8 @@ def validate(ctx, recs):
     """-> ([(index, verdict, casenum)], set of casenums seen by the model)"""
     out, cases = [], set()
     keys = ("cls", "sz", "al", "mis", "n", "mem", "nan", "u", "l")
-    for lo in range(0, len(recs), 4000):
-        chunk = [{k: r[k] for k in keys} for r in recs[lo:lo + 4000]]
+    for lo in range(0, len(recs), 10000):
+        chunk = [{k: r[k] for k in keys} for r in recs[lo:lo + 10000]]
         path = os.path.join(ctx.tmp, "unpack_%d.json" % len(ctx.cov["tlc_runs"]))
         core.write_json(path, chunk)
         r = core.tlc("Trace_Unpack", workers=1, env={"TRACE_FILE": path})
@@ -306,7 +306,7 @@ def spec_to_code(ctx, jobs, f, recs, divergences):
 
 def code_to_spec(ctx, f, recs):
     rng = ctx.rng
-    ncase = 1500 if ctx.quick else 60000
+    ncase = 1500 if ctx.quick else 40000
     for k in range(ncase):
         ct, cls, sz, al = TYPES[k % len(TYPES)]
         mis = (k // len(TYPES)) % 16
